@@ -221,6 +221,12 @@ def _d1(chk, fb):
                 if not set(f1) <= set(f2):
                     why.append("validation is restricted by %s which the apply pass is not" % sorted(set(f1) - set(f2)))
                     continue
+                # the validation pass must look at every entry: no way out of its loop other than the rejecting throw
+                early = [x for x in walk(lp1) if (x["k"] == "BreakStmt" and f.enclosing(x, ("ForStmt", "WhileStmt", "DoStmt", "CXXForRangeStmt", "SwitchStmt")) is lp1)
+                         or (x["k"] == "ReturnStmt" and f.enclosing(x, ("LambdaExpr",)) is None)]
+                if early:
+                    why.append("the validation loop can be left at %s before every entry was tested, the apply loop still stores all of them" % f.loc(early[0]))
+                    continue
                 # the validation loop must dominate the apply loop (completed before the first store)
                 cfg = f.cfg
                 b1, b2 = _loop_head(f, lp1), cfg.stmt_block(call)
@@ -634,6 +640,62 @@ def _d7(chk, fb):
             chk.unknown("D7", f.key, "add-refuses-duplicates", f.loc(), "neither an insertion nor a delegation recognised")
 
 
+def _d8(chk, fb):
+    """positional bulk erase: erasing position p shifts every later position, so a loop that erases the positions of a caller-
+    supplied index set must visit them in descending order: a sorted copy walked backwards (or sorted descending walked
+    forwards).  Visiting the caller's order is refuted; the largest index is then also the first one range-checked, so a refused
+    call has erased nothing"""
+    n = 0
+    for f in fb.q(PL + "::deleteParameters"):
+        pos = [p_ for p_ in f.params if re.search(r"vector<(unsigned long|size_t|unsigned int)", p_.get("ty", ""))]
+        if not pos or f.body is None:
+            continue
+        cfg = f.cfg
+        erases = [c for c in f.calls() if (c["callee"]["name"] == "erase" and "obj" in c and render(f.obj(c)) == "parameters_") or c["callee"]["name"] == "deleteParameter"]
+        for er in erases:
+            lp = f.enclosing(er, ("ForStmt", "CXXForRangeStmt", "WhileStmt"))
+            if lp is None:
+                continue
+            n += 1
+            # what does the loop walk over?
+            txt = ""
+            reverse = False
+            if lp["k"] == "CXXForRangeStmt":
+                txt = render(f.nodes[lp["rangeinit"]]) if isinstance(lp.get("rangeinit"), int) else ""
+            elif lp.get("init") is not None:
+                init = f.nodes[lp["init"]]
+                it = render(init["decls"][0]["init"]) if init["k"] == "DeclStmt" and init["decls"] and init["decls"][0].get("init") is not None else ""
+                m = re.match(r"^(\w+)\.(c?r?begin)\(\)$", it)
+                if m:
+                    txt, reverse = m.group(1), "r" in m.group(2)
+                else:
+                    m = re.search(r"(\w+)\.size\(\)", render(f.nodes[lp["cond"]]) if lp.get("cond") is not None else "")
+                    txt = m.group(1) if m else ""
+                    if it and re.search(r"\.size\(\)", it):
+                        m2 = re.match(r"^\(?(\w+)\.size\(\)", it)
+                        txt, reverse = (m2.group(1) if m2 else txt), True
+            con = "positional-erase-order"
+            if not txt:
+                chk.unknown("D8", f.key, con, f.loc(lp), "the container of positions walked by the erasing loop is not recognised")
+                continue
+            sorts = [c for c in f.calls() if c["callee"]["name"] == "sort" and f.args(c) and render(f.args(c)[0]) == txt + ".begin()"]
+            head = cfg.stmt_block(f.nodes[lp["cond"]]) if lp.get("cond") is not None else cfg.stmt_block(er)
+            sorted_before = [c for c in sorts if cfg.dominates(cfg.stmt_block(c), head)]
+            desc = any(len(f.args(c)) >= 3 and "greater" in render(f.args(c)[2]) for c in sorted_before)
+            if sorted_before and (reverse != desc):
+                chk.proved("D8", f.key, con, f.loc(er), "positions are erased from a sorted copy '%s' in descending order" % txt)
+            elif not sorted_before and txt == pos[0]["name"]:
+                chk.refuted("D8", f.key, con, f.loc(er),
+                            "the positions are erased in the order the caller listed them ('%s' is walked %s, no sort): after erasing a position every larger one has shifted, so an index set that is not in %s order removes other entries or is refused half-way" % (
+                                txt, "backwards" if reverse else "forwards", "ascending" if reverse else "descending"),
+                            witness={"input": "deleteParameters({3, 1}) on a list of six"})
+            elif sorted_before and reverse == desc:
+                chk.refuted("D8", f.key, con, f.loc(er), "the sorted positions are erased in ascending order: each erasure shifts the positions still to be erased", witness={"input": "deleteParameters({1, 3})"})
+            else:
+                chk.unknown("D8", f.key, con, f.loc(er), "order of the erased positions not established (container '%s')" % txt)
+    chk.floor("D8", "positional bulk erase loops", n, 1)
+
+
 def run(chk, fb, tier):
     chk.rule("D1", "bulk setters: a validation loop (target's constraint, value later stored, same range and filter) dominates the apply loop and is disjoint from it")
     chk.rule("D2", "matchParametersValues: flag, store and position recorded together under 'values differ'; the position counter advances exactly once per iteration, after the push")
@@ -649,6 +711,8 @@ def run(chk, fb, tier):
     _d6(chk, fb)
     chk.rule("D7", "ParameterList::addParameter* refuse an existing name (throw under hasParameter before inserting, or delegate to an overload that does) and never go through the update-on-collision functions")
     _d7(chk, fb)
+    chk.rule("D8", "a loop erasing the positions of a caller-supplied index set visits them in descending order (sorted copy walked backwards)")
+    _d8(chk, fb)
     from . import copyrule
     chk.rule("DC", "copy constructor and copy assignment copy the same members; operator= empties a member container before re-populating it; copy functions never assign through a stored shared pointer")
     copyrule.check(chk, fb, "DC", lambda c: c["file"].endswith(("Bpp/Numeric/ParameterList.h",)), floor=1)
